@@ -41,7 +41,7 @@ def run(ctx):
 # routine outputs: annotations attached by library routines to their own results
 def routine_stream(ctx):
     """calls lanczos / arnoldi / eig / svd / matrix functions on small matrices and tests every
-    annotation of every returned operator numerically (orthonormality to 1e-8 etc.)."""
+    annotation of every returned operator numerically (orthonormality to atol 1e-7 etc.)."""
     import random
     import sys
     import numpy as np
